@@ -52,8 +52,9 @@ _FSM_TRUSTED = ["Model/Cmd.v + Model/Fsm.v hand-written model of storage/table/f
 PROPS["C01"] = dict(
     title="A table behaves as an ordered byte-string map for every command history",
     design_ref="DESIGN.md section 7 (C01)",
-    run_files=["Run/FsmRun.v"],
-    engines=[dict(cmd=["c01"], corr="Model.Fsm.{Update,f_lookup,f_iterator_lookup,local_index,leader_index} <-> fsm.FSM.Update/Lookup")],
+    run_files=["Run/FsmRun.v", "Run/ApiRun.v"],
+    engines=[dict(cmd=["api"], corr="Model.Api.{impl_step: validators of Model.Validate + table lookup + request->Command + CommandResult->response over Model.Fsm.Update/f_lookup} <-> regattaserver.KVServer.{Range,IterateRange,Put,DeleteRange,Txn} over storage.Engine (real NodeHost) -> table.ActiveTable -> fsm.FSM", timeout=900),
+             dict(cmd=["c01"], corr="Model.Fsm.{Update,f_lookup,f_iterator_lookup,local_index,leader_index} <-> fsm.FSM.Update/Lookup")],
     level_text="Refinement theorem for all scenarios (any interleaving of apply batches, reads, iterator reads, read-only transactions, index reads, reopen): the implementation-level model over the encoded Pebble key space produces exactly the outputs of a plain sorted map applying the commands one after another, and its bookkeeping is invisible; the model is compared with the real fsm.FSM (Pebble on MemFS) on random histories, and the specification itself is evaluated on the implementation's outputs.",
     level_note="Trusts: Coq kernel; genconst; Pebble-as-sorted-map abstraction (validated by every correspondence case, not proved); correspondence run; range deletes with prev_kv over >= 4MiB-1KiB of data are outside the statement (known finding).",
     technique="Coq proof (parametricity of the command handlers in the store + representation invariant, induction over scenarios) + differential correspondence check against fsm.FSM on Pebble/MemFS",
@@ -99,8 +100,9 @@ PROPS["C01"]["label"] = fsm_label
 PROPS["C02"] = dict(
     title="Transactions are atomic if/then/else: one branch, in order, all or nothing",
     design_ref="DESIGN.md section 7 (C02)",
-    run_files=["Run/FsmRun.v"],
-    engines=[dict(cmd=["c02"], corr="Model.Cmd.{handle_txn,txn_compare,txn_ops,lookup_txn} via Model.Fsm.Update/f_lookup_txn <-> fsm.handleTxn, txnCompare, handleTxnOps, FSM.Lookup(TxnRequest)"),
+    run_files=["Run/FsmRun.v", "Run/ApiRun.v"],
+    engines=[dict(cmd=["api"], corr="Model.Api.{impl_step: validators of Model.Validate + table lookup + request->Command + CommandResult->response over Model.Fsm.Update/f_lookup} <-> regattaserver.KVServer.{Range,IterateRange,Put,DeleteRange,Txn} over storage.Engine (real NodeHost) -> table.ActiveTable -> fsm.FSM", timeout=900),
+             dict(cmd=["c02"], corr="Model.Cmd.{handle_txn,txn_compare,txn_ops,lookup_txn} via Model.Fsm.Update/f_lookup_txn <-> fsm.handleTxn, txnCompare, handleTxnOps, FSM.Lookup(TxnRequest)"),
              dict(cmd=["c10", "--txn"], summary="c10", corr="Model.Fsm (transactions) <-> table.ActiveTable.Txn over a simulated Raft host with real fsm.FSM replicas (the table layer between the API and the state machine)", timeout=900)],
     level_text="Theorems for all predicate and operation lists: branch selection by the conjunction of predicates on the pre-state (declarative semantics of single-key and range predicates), in-order execution with one response per operation, read-only transactions equal the read-only path and leave the state unchanged, and the encoded-store transaction equals the plain-map transaction at any position of any scenario; compared with the real FSM on transaction-heavy histories.",
     level_note="Trusts: Coq kernel; Pebble indexed batch/snapshot modelled as a working copy of the sorted map; correspondence run. Crash atomicity of the single commit is C04's.",
@@ -136,8 +138,9 @@ PROPS["C09"] = dict(
 PROPS["C10"] = dict(
     title="Revisions follow commit order; linearizable reads see all acknowledged writes",
     design_ref="DESIGN.md section 7 (C10)",
-    run_files=["Run/FsmRun.v", "Run/C10Run.v", "Mutants/LinearMutants.v"],
-    engines=[dict(cmd=["c10"], corr="Model.Linear + Model.Fsm <-> table.ActiveTable.{Put,Delete,Txn,Range} over a simulated Raft host with real fsm.FSM replicas; Model.Linear serve_at/engine paths <-> storage.Engine.{Range,IterateRange,Txn} on a real three-node cluster with held apply loops")],
+    run_files=["Run/FsmRun.v", "Run/C10Run.v", "Mutants/LinearMutants.v", "Run/ApiRun.v"],
+    engines=[dict(cmd=["api"], corr="Model.Api.{impl_step: validators of Model.Validate + table lookup + request->Command + CommandResult->response over Model.Fsm.Update/f_lookup} <-> regattaserver.KVServer.{Range,IterateRange,Put,DeleteRange,Txn} over storage.Engine (real NodeHost) -> table.ActiveTable -> fsm.FSM", timeout=900),
+             dict(cmd=["c10"], corr="Model.Linear + Model.Fsm <-> table.ActiveTable.{Put,Delete,Txn,Range} over a simulated Raft host with real fsm.FSM replicas; Model.Linear serve_at/engine paths <-> storage.Engine.{Range,IterateRange,Txn} on a real three-node cluster with held apply loops")],
     level_text="Theorems: every API mutation (incl. a transaction with an empty executed branch) reports revision = its log index, revisions of a log are its indices in order, a replica with k >= a applied entries contains all a acknowledged writes, serializable reads answer from a prefix state; the read-path choice of the table layer is checked on the real table.ActiveTable with a simulated Raft host (three real FSM replicas, seed-chosen lag and batching), whose responses are also compared with the model and the specification; a range read delivered in several messages with a transaction applied between two of them must be one state; two identical linearizable reads overlapping an acknowledged write (the later one must see it); an error from the table layer for a committed request is a violation. Engine layer (storage/engine.go): theorems that a linearizable Range/IterateRange and every read-only transaction, on a leader or a follower at any lag, is served from a state including every acknowledged write (the leader-answers-locally variant refuted in Mutants/LinearMutants.v); three real storage.Engines on loopback with one three-replica table: the apply loop of each replica in turn - so also the leader's - is held behind a write acknowledged through another replica, the held replica is asked for linearizable Range, IterateRange and a read-only Txn (no answer is fine, an answer without the write is a violation; released while a read waits, the read answers with the write), every read compared with the model's serving position.",
     level_note="Trusts: Coq kernel; dragonboat's ReadIndex contract is an explicit assumption (embodied by the simulated host); concurrency between clients is represented by the commit order only (sequential client scripts); Pebble-as-sorted-map.",
     technique="Coq proof (prefix/append lemmas over spec_entries) + simulated-Raft-host differential check through table.ActiveTable",
@@ -260,8 +263,9 @@ PROPS["C14"] = dict(
 PROPS["C16"] = dict(
     title="Invalid requests are rejected without effect; no request can crash a server",
     design_ref="DESIGN.md section 7 (C16)",
-    run_files=["Run/C16Run.v"],
-    engines=[dict(cmd=["c16"], corr="Model.Validate.{range_status,put_status,del_status,txn_status,create_status,delete_status} <-> regattaserver.KVServer/TablesServer/ReadonlyTablesServer + table.ActiveTable validators", timeout=900)],
+    run_files=["Run/C16Run.v", "Run/ApiRun.v"],
+    engines=[dict(cmd=["api"], corr="Model.Api.{impl_step: validators of Model.Validate + table lookup + request->Command + CommandResult->response over Model.Fsm.Update/f_lookup} <-> regattaserver.KVServer.{Range,IterateRange,Put,DeleteRange,Txn} over storage.Engine (real NodeHost) -> table.ActiveTable -> fsm.FSM", timeout=900),
+             dict(cmd=["c16"], corr="Model.Validate.{range_status,put_status,del_status,txn_status,create_status,delete_status} <-> regattaserver.KVServer/TablesServer/ReadonlyTablesServer + table.ActiveTable validators", timeout=900)],
     level_text="Theorems over all requests (reduced to the features the validators inspect): every documented constraint yields its status class, an accepted request satisfies all of them, and the key/value limits hold on every path that can create a record including operations nested in transactions. The real KVServer + table.ActiveTable (over a simulated Raft host with real state machines) and the tables servers are run on an enumerated grid of field combinations and a malformed stream; status codes are compared with the model, the table content is read back after every rejection, panics are caught and reported; the routing of transactions to the read path (TxnRequest.IsReadonly: only when both branches hold nothing but range reads - theorem and enumerated comparison); requests with extreme numeric fields run in a child process whose death is reported with the request it announced last; unknown tables with non-UTF-8 or control-character names are unknown tables; on a real storage.Engine, names that only resemble the path of a table ('demo/', './demo', 'x/../demo') are unknown tables too.",
     level_note="PARTIAL: 'no request terminates the process' is exercised (enumerated grid + random garbage, panics caught), not proved - a theorem about total Gallina validators says nothing about Go panics. Requests are called on the server objects directly, not through a network listener (gRPC decoding is C18's codec). storage.Engine's table routing is re-implemented in the harness (three lines per method).",
     technique="Coq proof (case analysis of the validator decision functions) + enumerated differential check of the real servers' status codes and effects",
